@@ -226,6 +226,11 @@ func (env *SpecEnv) btreeSpec(name string, n *ast.CallExpr) (SV, bool) {
 			return v, true
 		}
 		return intSV(intLit(0)), true
+	case "selected":
+		if v, ok := st.ghost["$selected"]; ok {
+			return v, true
+		}
+		return intSV(intLit(-1)), true
 	case "outAtLastMeta":
 		if v, ok := st.ghost["$outAtMeta"]; ok {
 			return v, true
